@@ -369,6 +369,225 @@ def _c16_conversion(src: Src) -> str:
     return f"def conversionTable : List (String × String) := [{body}]"
 
 
+# ---- the estruct usage ladders (C04, C02, C18) ----------------------------------------------
+
+
+def usage_branches(fn: ast.FunctionDef, var: str = "representation.usage") -> list[tuple[list[str], list[ast.stmt]]]:
+    """The top-level if/elif chain of tests `representation.usage in (...)`: [(usages, body)]."""
+    chain = next((s for s in fn.body if isinstance(s, ast.If) and isinstance(s.test, ast.Compare)
+                  and ast.unparse(s.test.left) == var), None)
+    if chain is None:
+        raise Unavailable(f"{fn.name}: usage ladder not found")
+    out = []
+    node: Any = chain
+    while isinstance(node, ast.If):
+        t = node.test
+        if not (isinstance(t, ast.Compare) and ast.unparse(t.left) == var and len(t.ops) == 1
+                and isinstance(t.ops[0], ast.In)):
+            raise Unavailable(f"{fn.name}: unexpected test {ast.unparse(t)}")
+        usages = []
+        for e in literal_elts(t.comparators[0]):
+            if not (isinstance(e, ast.Constant) and isinstance(e.value, str)):
+                raise Unavailable("usage spelling is not a string literal")
+            usages.append(e.value)
+        out.append((usages, node.body))
+        if len(node.orelse) == 1 and isinstance(node.orelse[0], ast.If):
+            node = node.orelse[0]
+        else:
+            if not (len(node.orelse) == 1 and isinstance(node.orelse[0], ast.Raise)):
+                raise Unavailable(f"{fn.name}: usage ladder does not end in raise")
+            node = None
+    return out
+
+
+REP_ENV = {
+    "representation.picture_size": "ps",
+    "len(representation.digit_groups[1])": "d1",
+    "len(representation.digit_groups[3])": "d3",
+}
+
+
+def ladder_with_locals(tr: Tr, stmts: list[ast.stmt], leaf_assign: Optional[str] = None) -> str:
+    """Like Tr.ladder but (a) simple local assignments are substituted, (b) when `leaf_assign` is given a leaf is
+    `leaf_assign = <expr>` instead of `return <expr>`."""
+    stmts = [s for s in stmts if not is_docstring(s) and not is_logging(s)]
+    if not stmts:
+        raise Unavailable("empty ladder")
+    s = stmts[0]
+    if isinstance(s, ast.Assign) and len(s.targets) == 1 and isinstance(s.targets[0], ast.Name):
+        name = s.targets[0].id
+        if leaf_assign is not None and name == leaf_assign:
+            return f"some ({tr.e(s.value)})"
+        tr2 = Tr({**tr.env, name: "(" + tr.e(s.value) + ")"}, tr.hooks)
+        return ladder_with_locals(tr2, stmts[1:], leaf_assign)
+    if isinstance(s, ast.Return) and s.value is not None and leaf_assign is None:
+        return f"some ({tr.e(s.value)})"
+    if isinstance(s, ast.Raise):
+        return "none"
+    if isinstance(s, ast.If):
+        rest = s.orelse if s.orelse else stmts[1:]
+        return (f"(if {tr.e(s.test)} then {ladder_with_locals(tr, s.body, leaf_assign)} else "
+                f"{ladder_with_locals(tr, rest, leaf_assign)})")
+    raise Unavailable(f"statement not in the translated subset: {ast.unparse(s)[:80]}")
+
+
+def usage_ladder_lean(name: str, params: str, rettype: str, branches: list[tuple[list[str], str]], doc: str) -> str:
+    lines = [f"/-- {doc} -/", f"def {name} (usage : String) {params} : Option {rettype} :="]
+    for usages, body in branches:
+        lines.append(f"  if usage ∈ [{', '.join(lean_str(u) for u in usages)}] then {body} else")
+    lines.append("  none")
+    return "\n".join(lines)
+
+
+@item("C04", "calcsize", "def calcsize (usage : String) (ps d1 d3 : Nat) : Option Nat := none -- extraction unavailable")
+def _c04_calcsize(src: Src) -> str:
+    fn = src.func("estruct", "calcsize")
+    guard = next((s for s in fn.body if isinstance(s, ast.If) and "picture_size" in ast.unparse(s.test)), None)
+    if guard is None or not isinstance(guard.body[0], ast.Raise) or guard.orelse:
+        raise Unavailable("calcsize: `if representation.picture_size == 0: raise` not found")
+    tr = Tr(dict(REP_ENV))
+    branches = [(u, ladder_with_locals(tr, body)) for u, body in usage_branches(fn)]
+    text = usage_ladder_lean("calcsizeUsage", "(ps d1 d3 : Nat)", "Nat", branches,
+                             "`estruct.calcsize`: the USAGE ladder (ps = picture_size, d1/d3 = integer/fraction digit counts)")
+    return (text + "\n/-- `estruct.calcsize` with its empty-picture guard -/\n"
+            f"def calcsize (usage : String) (ps d1 d3 : Nat) : Option Nat :=\n  if {tr.e(guard.test)} then none else calcsizeUsage usage ps d1 d3")
+
+
+def _binary_format_ladder(fn: ast.FunctionDef, var: str, label: str) -> tuple[list[str], str]:
+    for usages, body in usage_branches(fn):
+        if "BINARY" in usages:
+            tr = Tr(dict(REP_ENV))
+            inner = [s for s in body if isinstance(s, ast.If)]
+            if len(inner) != 1:
+                raise Unavailable(f"{label}: binary branch is not a single ladder")
+            return usages, ladder_with_locals(tr, inner, leaf_assign=var)
+    raise Unavailable(f"{label}: binary branch not found")
+
+
+@item("C04", "unpackBinary", "def unpackBinaryFormat (usage : String) (d1 : Nat) : Option String := none -- extraction unavailable")
+def _c04_unpack_binary(src: Src) -> str:
+    usages, lad = _binary_format_ladder(src.func("estruct", "unpack"), "format", "estruct.unpack")
+    return ("/-- `estruct.unpack`, binary branch: the struct format chosen from the integer digit count -/\n"
+            f"def unpackBinaryFormat (usage : String) (d1 : Nat) : Option String :=\n"
+            f"  if usage ∈ [{', '.join(lean_str(u) for u in usages)}] then {lad} else none")
+
+
+@item("C04", "structFormat", "def structFormat (usage : String) (ps d1 : Nat) : Option String := none -- extraction unavailable")
+def _c04_struct_format(src: Src) -> str:
+    fn = src.func("schema_instance", "Struct.struct_format")
+
+    def fstr_hook(node: ast.AST, tr: Tr) -> Optional[str]:
+        if isinstance(node, ast.JoinedStr):
+            parts = []
+            for v in node.values:
+                if isinstance(v, ast.Constant):
+                    parts.append(lean_str(v.value))
+                elif isinstance(v, ast.FormattedValue) and v.conversion == -1 and v.format_spec is None:
+                    parts.append(f"toString {tr.e(v.value)}")
+                else:
+                    raise Unavailable("f-string part")
+            return "(" + " ++ ".join(parts) + ")"
+        return None
+
+    tr = Tr(dict(REP_ENV), [fstr_hook])
+    branches = []
+    for usages, body in usage_branches(fn):
+        branches.append((usages, ladder_with_locals(tr, body, leaf_assign="struct_code")))
+    if not (isinstance(fn.body[-1], ast.Return) and ast.unparse(fn.body[-1].value) == "struct_code"):
+        raise Unavailable("struct_format does not end in `return struct_code`")
+    return usage_ladder_lean("structFormat", "(ps d1 : Nat)", "String", branches,
+                             "`Struct.struct_format`: the struct code for an atomic item")
+
+
+@item("C04", "textCalcsize", "def textCalcsizeSrc : List String := [] -- extraction unavailable")
+def _c04_text_calcsize(src: Src) -> str:
+    return f"def textCalcsizeSrc : List String := {lean_str_list(pinned_source(src, 'schema_instance', 'TextUnpacker.calcsize'))}"
+
+
+@item("C04", "ebcdicCalcsize", "def ebcdicCalcsizeSrc : List String := [] -- extraction unavailable")
+def _c04_ebcdic_calcsize(src: Src) -> str:
+    return f"def ebcdicCalcsizeSrc : List String := {lean_str_list(pinned_source(src, 'schema_instance', 'EBCDIC.calcsize'))}"
+
+
+# ---- C02 / C18: sign nibble tests, digit checks, code page ---------------------------------
+
+
+def _sign_tests(src: Src) -> list[str]:
+    fn = src.func("estruct", "unpack")
+    tests = []
+    for n in ast.walk(fn):
+        if (isinstance(n, ast.Assign) and ast.unparse(n.targets[0]) == "sign" and isinstance(n.value, ast.IfExp)):
+            v = n.value
+            if not (ast.unparse(v.body) == "-1" and ast.unparse(v.orelse) in ("+1", "1")):
+                raise Unavailable(f"sign expression {ast.unparse(v)}")
+            tests.append(Tr({"sign_half": "sn"}).e(v.test))
+    if len(tests) != 2:
+        raise Unavailable(f"expected two sign tests in estruct.unpack, found {len(tests)}")
+    return tests
+
+
+@item("C02", "signTests", "def zonedNeg (sn : Nat) : Prop := False\ndef packedNeg (sn : Nat) : Prop := False -- extraction unavailable")
+def _c02_sign(src: Src) -> str:
+    z, p = _sign_tests(src)
+    return ("/-- `estruct.unpack`: the test that makes a zoned value negative (first occurrence) -/\n"
+            f"def zonedNeg (sn : Nat) : Prop := {z}\n"
+            "/-- … and a packed value (second occurrence) -/\n"
+            f"def packedNeg (sn : Nat) : Prop := {p}")
+
+
+@item("C02", "codepage", "def cp037 : List Nat := []\ndef classW : List Bool := []\ndef classD : List Bool := []\ndef classS : List Bool := [] -- extraction unavailable")
+def _c02_codepage(src: Src) -> str:
+    import re as _re
+    text = bytes(range(256)).decode("cp037")
+    fmt = lambda xs: "[" + ", ".join(xs) + "]"  # noqa: E731
+    b = lambda x: "true" if x else "false"  # noqa: E731
+    return ("/-- Python's cp037 codec, byte ↦ code point (read from the running interpreter) -/\n"
+            f"def cp037 : List Nat := {fmt(str(ord(c)) for c in text)}\n"
+            f"def classW : List Bool := {fmt(b(_re.match(r'\w', c)) for c in text)}\n"
+            f"def classD : List Bool := {fmt(b(_re.match(r'\d', c)) for c in text)}\n"
+            f"def classS : List Bool := {fmt(b(_re.match(r'\s', c)) for c in text)}")
+
+
+@item("C02", "unpackSrc", "def unpackSrc : List String := [] -- extraction unavailable")
+def _c02_unpack_src(src: Src) -> str:
+    return f"def unpackSrc : List String := {lean_str_list(pinned_source(src, 'estruct', 'unpack'))}"
+
+
+# ---- C13: the two scanners -----------------------------------------------------------------
+
+
+def _scanner(src: Src, mod: str, qual: str) -> tuple[str, list[str], list[str]]:
+    fn = src.func(mod, qual)
+    comp = next((n for n in ast.walk(fn) if isinstance(n, ast.Call) and ast.unparse(n.func) == "re.compile"), None)
+    if comp is None or not (isinstance(comp.args[0], ast.Constant) and isinstance(comp.args[0].value, str)):
+        raise Unavailable(f"{mod}.{qual}: re.compile(<literal>) not found")
+    flags = []
+    for a in comp.args[1:] + [k.value for k in comp.keywords if k.arg == "flags"]:
+        flags += [p.strip().removeprefix("re.") for p in ast.unparse(a).split("|")]
+    body = [ast.unparse(s) for s in fn.body if not is_docstring(s) and not is_logging(s)
+            and not (isinstance(s, ast.Assign) and s.value is comp)]
+    return comp.args[0].value, sorted(flags), body
+
+
+@item("C13", "decoderScanner", 'def decoderPattern : String := ""\ndef decoderFlags : List String := []\ndef decoderBody : List String := [] -- extraction unavailable')
+def _c13_decoder(src: Src) -> str:
+    pat, flags, body = _scanner(src, "estruct", "Representation.normalize_picture")
+    return (f"def decoderPattern : String := {lean_str(pat)}\ndef decoderFlags : List String := {lean_str_list(flags)}\n"
+            f"def decoderBody : List String := {lean_str_list(body)}")
+
+
+@item("C13", "generatorScanner", 'def generatorPattern : String := ""\ndef generatorFlags : List String := []\ndef generatorBody : List String := [] -- extraction unavailable')
+def _c13_generator(src: Src) -> str:
+    pat, flags, body = _scanner(src, "cobol_parser", "normalize_picture")
+    return (f"def generatorPattern : String := {lean_str(pat)}\ndef generatorFlags : List String := {lean_str_list(flags)}\n"
+            f"def generatorBody : List String := {lean_str_list(body)}")
+
+
+@item("C13", "sizeLoop", "def parseSrc : List String := [] -- extraction unavailable")
+def _c13_parse(src: Src) -> str:
+    return f"def parseSrc : List String := {lean_str_list(pinned_source(src, 'estruct', 'Representation.parse'))}"
+
+
 # ------------------------------------------------------------------------------------------
 # driver
 # ------------------------------------------------------------------------------------------
